@@ -345,7 +345,7 @@ func c11Session(seed int64, patience time.Duration) *c11Result {
 		return finish()
 	}
 	sm, cm := s.Noise.VerifMachine(), cl.Noise.VerifMachine()
-	if sm == nil || cm == nil || sm.VerifSnapshot().Version != 2 || cm.VerifSnapshot().Version != 2 {
+	if sm == nil || cm == nil || sm.VerifVersion() != 2 || cm.VerifVersion() != 2 {
 		bad("pairing-version", "first pairing did not negotiate handshake version 2")
 		return finish()
 	}
